@@ -212,6 +212,9 @@ func zzC06(nPods int) {
 	// "disabled features never fire"
 	nondet.Assert("C06.fail.disabled", nondet.Implies(nondet.And(!autoFail, !prevFailed), !res.IsFailed))
 	nondet.Assert("C06.pause.disabled", nondet.Implies(nondet.And(!autoPause, !prevPaused), !res.IsPaused))
+	// "Otherwise Canary-Paused becomes true when ...": a canary that had already failed before this
+	// sync is not auto-paused any more
+	nondet.Assert("C06.pause.not-on-failed-canary", nondet.Implies(nondet.And(prevFailed, res.IsPaused), prevPaused))
 	// "once true it stays true while that replica set is the canary"
 	nondet.Assert("C06.fail.sticky", nondet.Implies(prevFailed, res.IsFailed))
 	// "a manual unpause overrides pausing but never failing"
